@@ -83,6 +83,10 @@ fn usize_value(body: Rc<SExp>) -> Result<usize, CompileErr> {
 /// needed.  These are held in a collection and looked up.  To be maximally
 /// conservative with typing and lifetime, we hold these via Rc<dyn ...>.
 pub trait ExtensionFunction {
+    /// The number of arguments try_eval reads by position.
+    fn required_args(&self) -> usize {
+        1
+    }
     fn try_eval(&self, loc: &Srcloc, args: &[Rc<SExp>]) -> Result<Rc<SExp>, CompileErr>;
 }
 
@@ -182,6 +186,9 @@ impl StringAppend {
 }
 
 impl ExtensionFunction for StringAppend {
+    fn required_args(&self) -> usize {
+        0
+    }
     fn try_eval(&self, loc: &Srcloc, args: &[Rc<SExp>]) -> Result<Rc<SExp>, CompileErr> {
         let mut out_vec = Vec::new();
         let mut out_loc = None;
@@ -272,6 +279,9 @@ impl Substring {
 }
 
 impl ExtensionFunction for Substring {
+    fn required_args(&self) -> usize {
+        3
+    }
     fn try_eval(&self, _loc: &Srcloc, args: &[Rc<SExp>]) -> Result<Rc<SExp>, CompileErr> {
         let start_element = usize_value(args[1].clone())?;
         let end_element = usize_value(args[2].clone())?;
@@ -350,6 +360,12 @@ impl PrimOverride for PreprocessorExtension {
             };
 
             if let Some(extension) = self.extfuns.get(head_atom) {
+                if have_args.len() < extension.required_args() {
+                    return Err(RunFailure::RunErr(
+                        hl.clone(),
+                        format!("too few arguments to {}", decode_string(head_atom)),
+                    ));
+                }
                 let res = extension.try_eval(hl, &have_args)?;
                 return Ok(Some(res));
             }
